@@ -120,7 +120,11 @@ def rule_ppq_defuse(ctx):
     mf = [n for n in own_nodes(f.node) if isinstance(n, ast.Call) and norm(n.func).endswith("MidiFile")]
     ctx.require(len(mf) == 1, "PPQ", f.qname, "MidiFile(...) construction not found")
     tpb = next((k.value for k in mf[0].keywords if k.arg == "ticks_per_beat"), None)
-    ctx.require(isinstance(tpb, ast.Name), "PPQ", f.qname, "ticks_per_beat is not a plain variable")
+    if not isinstance(tpb, ast.Name):
+        ctx.check(False, "PPQ", f"{f.qname}: header ticks_per_beat", func=f, node=mf[0], construct="header-ppq-not-the-converter's",
+                  msg=f"MidiFile(ticks_per_beat={norm(tpb) if tpb is not None else None}) is not the variable to_ppq multiplies by: ticks and header disagree "
+                      f"whenever minimum_ppq doubled the resolution")
+        return
     name = tpb.id
     defs = [n for n in own_nodes(f.node) if isinstance(n, ast.Assign) and any(norm(t) == name for t in n.targets)]
     forms = sorted(norm(d.value) for d in defs)
